@@ -243,6 +243,21 @@ def make_classes(r, tag, n_classes=6, n_enums=3):
             return o
         C._make = staticmethod(_make)
         classes.append(C)
+        if i % 3 == 0:
+            # a class hierarchy: a subclass of a user class, with fields of its own (the library encodes the fields a class
+            # declares itself, under the subclass's own type id)
+            _COUNTER[0] += 1
+            sns = {"__annotations__": {"sub_n": int, "sub_s": str, "sub_v": object}, "sub_n": 0, "sub_s": "", "sub_v": None}
+            Sub = type("SS%s_%d" % (tag, _COUNTER[0]), (C,), sns)
+
+            def _make_sub(gen, depth, _S=Sub):
+                o = _S()
+                o.sub_n = gen.integer()
+                o.sub_s = gen.string()
+                o.sub_v = gen.value(depth + 1) if depth < 5 else gen.scalar()
+                return o
+            Sub._make = staticmethod(_make_sub)
+            classes.append(Sub)
     return classes, enums
 
 
